@@ -32,7 +32,7 @@ ASSUMPTIONS = ["reactivex.testing.TestScheduler is the clock (checked by C28)", 
 CASES = {"quick": 6000, "thorough": 360000}
 UNIT_TIMEOUT = {"quick": 300, "thorough": 3600}
 OPS = ["switch_latest", "switch_map", "switch_map_indexed", "flat_map_latest"]
-REQUIRED = {"set:ops": len(OPS), "switches_with_open_previous": {"quick": 3000, "thorough": 60000},
+REQUIRED = {"set:ops": len(OPS), "feedback_cases": {"quick": 800, "thorough": 40000}, "switches_with_open_previous": {"quick": 3000, "thorough": 60000},
             "completed_by_outer_last": {"quick": 150, "thorough": 3000}, "completed_by_inner_last": {"quick": 500, "thorough": 10000},
             "current_inner_errors": {"quick": 150, "thorough": 3000}, "outer_errors": {"quick": 150, "thorough": 3000},
             "arrival_ties_with_inner_notification": {"quick": 100, "thorough": 2000},
@@ -234,10 +234,82 @@ def run_case(seed: int, idx: int, res: UnitResult) -> None:
                        "observed": show_timed(actual), "trace": show_trace(lab)}, {"seed": seed, "idx": idx})
 
 
+
+# ------------------------------------------------------------------ feedback family (re-entrant switch)
+# The downstream subscriber reacts to the k-th element of a SYNCHRONOUS inner by pushing the next inner into the
+# outer (a harness-driven Subject) from inside its own on_next. The first inner is then superseded while it is still
+# emitting inside its subscribe call, so its remaining elements and its terminal notification reach the operator while
+# it is stale: they must not be forwarded and must not influence completion.
+
+def feedback_case(seed: int, idx: int, res: UnitResult) -> None:
+    from reactivex.subject import Subject
+    from ..vlab import SrcErr
+    r = case_rng(seed, ID, "feedback", idx)
+    op = OPS[idx % len(OPS)]
+    n1 = r.randint(1, 3)
+    k = r.randint(1, n1)
+    term1 = r.choice(["C", "E", None])
+    n2 = r.randint(0, 2)
+    term2 = r.choice(["C", "C", "E", None])
+    outer_done = r.choice(["before_inner2_ends", "after_inner2_ends", "never"])
+    lab = Lab("num")
+    first_msgs = [(0, "N", "a%d" % i) for i in range(1, n1 + 1)]
+    if term1:
+        first_msgs.append((0, term1, SrcErr("stale inner error") if term1 == "E" else None))
+    err2 = SrcErr("latest inner error")
+    second_msgs = [(10 * (i + 1), "N", "x%d" % i) for i in range(n2)]
+    t_end2 = 10 * (n2 + 1)
+    if term2:
+        second_msgs.append((t_end2, term2, err2 if term2 == "E" else None))
+    inner1 = lab.sync("i1", first_msgs)
+    inner2 = lab.cold("i2", second_msgs)
+    S = {"k1": inner1, "k2": inner2}
+    outer: Any = Subject()
+    count = [0]
+
+    def on_recv(kind: str, value: Any, obs: Any) -> None:
+        if kind == "N" and isinstance(value, str) and value.startswith("a"):
+            count[0] += 1
+            if count[0] == k:
+                outer.on_next(inner2 if op == "switch_latest" else "k2")
+    top = lab.observer("top", inner=False, on_recv=on_recv)
+    case = {"op": op}
+    t_push = SUB_AT + 10
+    lab.at(SUB_AT, lambda: top.subscribe_to(build(case, lab, S, outer)))
+    lab.at(t_push, lambda: outer.on_next(inner1 if op == "switch_latest" else "k1"))
+    t2_end_abs = t_push + t_end2
+    if outer_done == "before_inner2_ends":
+        lab.at(t_push + 5, outer.on_completed)
+    elif outer_done == "after_inner2_ends":
+        lab.at(t2_end_abs + 15, outer.on_completed)
+    lab.run()
+    expected = [(t_push, "N", "a%d" % i) for i in range(1, k + 1)]
+    expected += [(t_push + 10 * (i + 1), "N", "x%d" % i) for i in range(n2)]
+    if term2 == "E":
+        expected.append((t2_end_abs, "E", err2))
+    elif term2 == "C" and outer_done != "never":
+        expected.append((t2_end_abs if outer_done == "before_inner2_ends" else t2_end_abs + 15, "C", None))
+    got = top.timed()
+    desc = {"family": "feedback", "op": op, "first_inner": [m[1] if m[1] != "N" else m[2] for m in first_msgs], "switch_at_element": k,
+            "second_inner_elements": n2, "second_inner_terminal": term2, "outer_completes": outer_done}
+    res.case(key=desc, nontrivial=True, sample={"case": desc, "expected": show_timed(expected), "observed": show_timed(got)} if idx % 40 == 0 else None)
+    res.count("feedback_cases")
+    if k < n1 or term1:
+        res.count("feedback_stale_notifications_reaching_operator", (n1 - k) + (1 if term1 else 0))
+    why = match_exact(expected, got)
+    if why is not None:
+        res.violation("C12:%s:reentrant-switch" % op, {"why": why, "case": desc, "expected": show_timed(expected), "observed": show_timed(got)},
+                      {"seed": seed, "idx": idx, "family": "feedback"})
+
 def run_unit(unit: dict, res: UnitResult) -> None:
     for idx in range(unit["lo"], unit["hi"]):
         run_case(unit["seed"], idx, res)
+        if idx % 6 == 0:
+            feedback_case(unit["seed"], idx, res)
 
 
 def replay(rep: dict, res: UnitResult) -> None:
+    if rep.get("family") == "feedback":
+        feedback_case(rep["seed"], rep["idx"], res)
+        return
     run_case(rep["seed"], rep["idx"], res)
